@@ -1,7 +1,7 @@
 (* Run.C14 — driver for the generated correspondence cases of C14 (and, re-used, C13).
    Texts are written by the harness as UTF-8 Coq string literals and decoded here to code points. *)
 From Coq Require Import ZArith NArith String Ascii List Bool.
-From JMCV Require Import Model.Tok Model.TokPos Model.TokDerived Run.Common.
+From JMCV Require Import Model.Tok Model.TokPos Model.TokDerived Model.TokCite Run.Common.
 Import ListNotations.
 Open Scope Z_scope.
 
@@ -114,6 +114,21 @@ Definition tok_of_r (r : rtok) : token := mkTok (r_type r) (r_line r) (r_col r) 
 Definition scase_ok (c : scase) : bool :=
   is_signed_eq (tok_of_r (s_eq c)) && tok_eqb (split_sign d_sign (tok_of_r (s_eq c))) (s_sign c).
 Definition smismatches (l : list scase) : list nat := bad_indices scase_ok l.
+
+(* ---- (strengthening round 3) every call of exception.error_msg with a token: the (line, col) in the header `In file:L:C`
+        and in the sentence `at line L col C.` == Model.TokCite.cite col_length of the recorded token
+        (entire_line template: lines only, no column is written) *)
+Record ecase := EC { e_tok : rtok; e_col_length : bool; e_entire : bool;
+                     e_line : Z; e_col : option Z;        (* the sentence *)
+                     e_hline : Z; e_hcol : option Z }.    (* the header *)
+Definition opt_is (o : option Z) (x : Z) : bool := match o with Some y => Z.eqb x y | None => false end.
+Definition ecase_ok (e : env) (c : ecase) : bool :=
+  let '(l, k) := cite (printable_of e) (e_col_length c) (tok_of_r (e_tok c)) in
+  Z.eqb l (e_line c) && Z.eqb l (e_hline c) &&
+  (if e_entire c then match e_col c, e_hcol c with None, None => true | _, _ => false end
+   else opt_is (e_col c) k && opt_is (e_hcol c) k).
+Definition emismatches (e : env) (l : list ecase) : list nat := bad_indices (ecase_ok e) l.
+Definition show_cite (e : env) (c : ecase) : Z * Z := cite (printable_of e) (e_col_length c) (tok_of_r (e_tok c)).
 
 (* for messages *)
 Definition show_model (e : env) (c : tcase) : result (list (list (ttype * Z * Z * nat))) :=
